@@ -249,6 +249,9 @@ class Recorder:
         tr = dict(spec=self.spec, fault=self.fault, events=self.ev, calls=self.calls, cons_calls=self.cons_calls)
         wfun = self._target(fun)
         wcons = self._cons(cons) if cons is not None else None
+        # the USER's hard box, copied BEFORE the constructor sees the arrays: the oracle of C01 must not be read back from the implementation
+        user_lb, user_ub = _l(np.array(args["lower_bounds"], dtype=float)), _l(np.array(args["upper_bounds"], dtype=float))
+        args = {k: (None if v is None else np.array(v, dtype=float)) for k, v in args.items()}
         try:
             b = BADS(wfun, non_box_cons=wcons, options=dict(options), **args)
         except Exception as ex:
@@ -257,7 +260,7 @@ class Recorder:
         self.b = b
         vt = b.var_transf
         tr["problem"] = dict(D=b.D, x0=_l(b.x0), lb=_l(b.lower_bounds), ub=_l(b.upper_bounds), plb=_l(b.plausible_lower_bounds),
-                             pub=_l(b.plausible_upper_bounds), lb_orig=_l(vt.orig_lb), ub_orig=_l(vt.orig_ub),
+                             pub=_l(b.plausible_upper_bounds), lb_orig=user_lb, ub_orig=user_ub, lb_orig_impl=_l(vt.orig_lb), ub_orig_impl=_l(vt.orig_ub),
                              logt=[bool(v) for v in np.asarray(vt.apply_log_t).reshape(-1)], u0=_l(b.u),
                              level0=int(b.optim_state["uncertainty_handling_level"]))
         tr["options0"] = {k: (v if isinstance(v, (int, float, bool, str, type(None))) else _f(v))
